@@ -1,5 +1,6 @@
 import DracoModel.Proto
 import DracoModel.SeqDecoder
+import DracoModel.KdTreeAttr
 import DracoModel.Spec
 import Ops.Metadata
 /- op handlers for whole-stream decoding -/
@@ -25,7 +26,7 @@ def decResultText (bs : Bytes) (r : Option DecodeResult × DSt) : String :=
 def decOp : List String → String
   | [skip, h] =>
     let bs := bytesOfHex h
-    decResultText bs (decodeGeometry { skip := skipOf skip } { rest := bs })
+    decResultText bs (decodeGeometryAll { skip := skipOf skip } { rest := bs })
   | _ => "bad-op"
 
 def splitOn2 (sep : String) (l : List String) : List (List String) :=
@@ -56,9 +57,9 @@ def e2eOp (args : List String) : String :=
     let req := reqOf ((kv opts "req").getD "-")
     let skipS := (kv opts "skip").getD "-"
     let bs := bytesOfHex ((kv opts "hex").getD "-")
-    let mdec := decResultText bs (decodeGeometry {} { rest := bs })
-    let mall := decResultText bs (decodeGeometry { skip := [0, 1, 2, 3, 4] } { rest := bs })
-    let msub := if skipS == "-" then "-" else decResultText bs (decodeGeometry { skip := skipOf skipS } { rest := bs })
+    let mdec := decResultText bs (decodeGeometryAll {} { rest := bs })
+    let mall := decResultText bs (decodeGeometryAll { skip := [0, 1, 2, 3, 4] } { rest := bs })
+    let msub := if skipS == "-" then "-" else decResultText bs (decodeGeometryAll { skip := skipOf skipS } { rest := bs })
     let geomOf := fun (t : List String) =>
       match t with
       | "ok" :: _ :: rest => (Geometry.ofTokens rest).map (·.1)
